@@ -49,6 +49,35 @@ func (s exhSpec) each(f func(text string)) {
 	}
 }
 
+// eachByte: every byte value (0..255) after every short state-reaching prefix: all strings over the alphabet of
+// length <= depth, and every deep prefix followed by at most one alphabet symbol. Covers the bytes that are not in
+// the small alphabet (control bytes, HT, other punctuation, 8-bit bytes) in every state those prefixes reach.
+func (s exhSpec) eachByte(depth int, f func(text string)) {
+	seen := map[string]bool{}
+	var pres []string
+	addp := func(p string) {
+		if !seen[p] {
+			seen[p] = true
+			pres = append(pres, p)
+		}
+	}
+	for k, p := range s.prefixes {
+		if k == 0 && p == "" {
+			enumStrings(s.alpha, depth, addp)
+			continue
+		}
+		enumStrings(s.alpha, 1, func(t string) { addp(p + t) })
+	}
+	for _, p := range pres {
+		for c := 0; c < 256; c++ {
+			f(p + string([]byte{byte(c)}) + s.trailer)
+			if len(s.alpha) > 0 {
+				f(p + string([]byte{byte(c)}) + s.alpha[:1] + s.trailer)
+			}
+		}
+	}
+}
+
 // exhSpecs lists the enumerations; d = extra length (0 quick, 1 thorough).
 func exhSpecs(d int, sel string) []exhSpec {
 	quick := d == 0
@@ -153,6 +182,9 @@ func (g *Gen) exhResume(prop, sel string) {
 				}
 			}
 		})
+		s.eachByte(1, func(text string) {
+			mk(s.hd, text, allCuts(len(text)), s.flags, s.desc+"-anybyte")
+		})
 	}
 }
 
@@ -160,10 +192,14 @@ func (g *Gen) exhResume(prop, sel string) {
 func (g *Gen) exhOneShot(prop, sel string) {
 	d := g.budget(0, 1)
 	for _, s := range exhSpecs(d, sel) {
-		s.each(func(text string) {
-			g.add(Case{Prop: prop, Desc: s.desc + "-oneshot", Lines: []string{parseSess(s.hd, text, 0, []int{len(text)}, s.flags, true, "")},
-				Check: func(out []string) string { return "" }})
-		})
+		one := func(desc string) func(text string) {
+			return func(text string) {
+				g.add(Case{Prop: prop, Desc: desc, Lines: []string{parseSess(s.hd, text, 0, []int{len(text)}, s.flags, true, "")},
+					Check: func(out []string) string { return "" }})
+			}
+		}
+		s.each(one(s.desc + "-oneshot"))
+		s.eachByte(1+d, one(s.desc+"-anybyte"))
 	}
 }
 
